@@ -166,6 +166,16 @@ pub assume_specification [crate::iri::IriRefBuf::new_unchecked] (b: String) -> (
 pub assume_specification [crate::iri::IriRefBuf::into_string] (s: crate::iri::IriRefBuf) -> (r: String)
     ensures bytes_of(&r) == bytes_of(&s);
 
+// owned checked constructors and byte extraction of the IRI family (generated). TRUSTED.
+pub assume_specification [crate::uri::UriBuf::new] (input: Vec<u8>) -> (r: Result<crate::uri::UriBuf, crate::uri::InvalidUri<Vec<u8>>>)
+    ensures r is Ok <==> lang_uri(input@), match r { Ok(u) => bytes_of(&u) == input@, Err(e) => e.0@ == input@ };
+pub assume_specification [crate::uri::UriRefBuf::new] (input: Vec<u8>) -> (r: Result<crate::uri::UriRefBuf, crate::uri::InvalidUriRef<Vec<u8>>>)
+    ensures r is Ok <==> lang_uriref(input@), match r { Ok(u) => bytes_of(&u) == input@, Err(e) => e.0@ == input@ };
+pub assume_specification [crate::iri::IriBuf::into_bytes] (s: crate::iri::IriBuf) -> (r: Vec<u8>)
+    ensures r@ == bytes_of(&s);
+pub assume_specification [crate::iri::IriRefBuf::into_bytes] (s: crate::iri::IriRefBuf) -> (r: Vec<u8>)
+    ensures r@ == bytes_of(&s);
+
 // std: unchecked UTF-8 reinterpretation. TRUSTED (std documentation: the bytes must be valid UTF-8)
 pub assume_specification [std::str::from_utf8_unchecked] (b: &[u8]) -> (r: &str)
     requires utf8_ok(b@),
